@@ -255,17 +255,17 @@ type c3Call struct {
 type c3Run struct {
 	sc         c3Script
 	tcp, bw    bool
-	pooled     bool // message pool on (pool.New(1024, 2048)); "up": empty ACKs take c3AckWrite to write, callers release their response at once
-	dd         bool         // message-ID layer case (c03dd.go): emitted as DdCase, every received message with its type and message ID, cache hits and acknowledgements observed
-	spy        *c3CacheSpy  // dd: wrapper around the connection's response cache
+	pooled     bool        // message pool on (pool.New(1024, 2048)); "up": empty ACKs take c3AckWrite to write, callers release their response at once
+	dd         bool        // message-ID layer case (c03dd.go): emitted as DdCase, every received message with its type and message ID, cache hits and acknowledgements observed
+	spy        *c3CacheSpy // dd: wrapper around the connection's response cache
 	spyField   *client.MessageCache
-	curMid     int          // dd: message ID of the message injected in the current event (-1: none)
-	evAcks     int          // dd: acknowledgements with that message ID the connection wrote during the event
-	lastDedup  bool         // dd: the bookkeeping took the last prepared message for a duplicate
-	lastKey    uint64       // dd: token key of the last prepared message
-	bwcase     bool // block-wise layer case (c03bw.go): emitted as BwCase, every event with what the connection wrote (block requests, 4.08)
-	single     bool // the script runs with GOMAXPROCS(1)
-	holdAll    bool // pooled, and the callers keep their responses until the script is over (they release them then)
+	curMid     int    // dd: message ID of the message injected in the current event (-1: none)
+	evAcks     int    // dd: acknowledgements with that message ID the connection wrote during the event
+	lastDedup  bool   // dd: the bookkeeping took the last prepared message for a duplicate
+	lastKey    uint64 // dd: token key of the last prepared message
+	bwcase     bool   // block-wise layer case (c03bw.go): emitted as BwCase, every event with what the connection wrote (block requests, 4.08)
+	single     bool   // the script runs with GOMAXPROCS(1)
+	holdAll    bool   // pooled, and the callers keep their responses until the script is over (they release them then)
 	free       chan struct{}
 	holders    sync.WaitGroup // callers that keep a response
 	obsWriter  bool           // the releases of the receive path are observed (callers hold their responses, so nobody else releases in between)
